@@ -259,6 +259,14 @@ class TypedNode(Node):
         ):
             raise TypeError("If child is a node or tree it must be typed.")
 
+        # Validate `before` first: we must not create (and register) the new
+        # node and then fail
+        if isinstance(before, Node) and before._parent is not self:
+            raise ValueError(
+                f"`before=node` ({before._parent}) "
+                f"must be a child of target node ({self})"
+            )
+
         if isinstance(child, self._tree.__class__):
             if deep is None:
                 deep = True
@@ -302,19 +310,13 @@ class TypedNode(Node):
 
         children = self._children
         if children is None:
-            assert before in (None, True, int, False)
             self._children = [node]
         elif before is True:  # prepend
             children.insert(0, node)
         elif isinstance(before, int):
             children.insert(before, node)
         elif before:
-            if before._parent is not self:
-                raise ValueError(
-                    f"`before=node` ({before._parent}) "
-                    f"must be a child of target node ({self})"
-                )
-            idx = _index_of(children, before)  # raises ValueError
+            idx = _index_of(children, before)
             children.insert(idx, node)
         else:
             children.append(node)
